@@ -30,6 +30,12 @@ Definition allow : list allowed := [
   mkAllowed "t4_geom_convert/Kernel/FileHandlers/Writer/WriteT4Geometry.py" "convertMCNPGeometry"
     "pickle.dump(vol_conv, dicfile)"
     "only under --cache, into <input>.volumes.cache";
+  mkAllowed "t4_geom_convert/Kernel/FileHandlers/Parser/ParseMCNPCell.py" "ParseMCNPCell.parse"
+    "pickle.load(dicfile)"
+    "only under --cache: state of an earlier run read back from <input>.mcnp.cache without checking that it belongs to the deck — this IS the open finding cache_option_stale_disk_cache (witness replayed on every run)";
+  mkAllowed "t4_geom_convert/Kernel/FileHandlers/Writer/WriteT4Geometry.py" "convertMCNPGeometry"
+    "pickle.load(dicfile)"
+    "only under --cache: <input>.surfaces.cache / .volumes.cache read back unchecked — the open finding cache_option_stale_disk_cache";
   (* ---- clock and command line ---- *)
   mkAllowed "t4_geom_convert/main.py" "conversion" "datetime.now()"
     "start/end time printed on stdout only, never written to the output file";
